@@ -185,6 +185,20 @@ func describedInterfacePoison(t *tape.Tape, gen *workload.Gen) (workload.Fragmen
 		Text: fmt.Sprintf("interface ZDesc%d {\n  \"described by the interface\"\n  %s: %s\n}\nextend type %s implements ZDesc%d {\n}\ntype ZzBad%d {\n}\n", k, sig, f.Type, o.Name, k, k)}, true
 }
 
+// CrashIsViolation implements core.CrashChecker: a call that never returns
+// because the library waits for a lock it leaked itself counts against the
+// property (what follows the call cannot be as the property says).
+func (C14) CrashIsViolation() string { return "C14" }
+
+// RunTimeout implements core.CrashChecker (a run takes milliseconds).
+func (C14) RunTimeout() float64 { return 60 }
+
+// HangNeedsLibraryFrame implements core.HangAttributor.
+func (C14) HangNeedsLibraryFrame() bool { return true }
+
+// LibraryRunsOnOneGoroutine implements core.SequentialLibrary.
+func (C14) LibraryRunsOnOneGoroutine() bool { return true }
+
 func (c C14) Run(t *tape.Tape, opt core.RunOpt) (res core.Result) {
 	// Two kinds of root: a synthetic one (empty at first, data fabricated from
 	// the schema) and, in one run of four, a zoo root with real data behind a
